@@ -3,6 +3,8 @@ package props
 import (
 	"fmt"
 	"strings"
+	"sync"
+	"sync/atomic"
 	"time"
 
 	"github.com/pion/stun/v3"
@@ -43,6 +45,9 @@ func c16Call(c *core.Ctx, s string) {
 
 func c16(c *core.Ctx) {
 	maxLen := int(c.N(5, 6))
+	if c.Config == "race" {
+		maxLen = 2
+	}
 	k := len(c16Alphabet)
 	// exhaustive: every string up to maxLen over the alphabet after each prefix; one case per (prefix, first two symbols)
 	c.Section("exhaustive", int64(len(c16Prefixes)*k*k), func(i int64, _ *gen.Rand) {
@@ -94,6 +99,41 @@ func c16(c *core.Ctx) {
 		}
 	})
 	c.MarkExhaustive(fmt.Sprintf("all strings of length <= %d over the 20-symbol alphabet after each of %d prefixes", maxLen, len(c16Prefixes)))
+	// many goroutines parsing distinct and identical URIs at once: no shared state may be hurt (a fatal runtime error ends the child)
+	c.Section("concurrent", c.N(24, 600), func(i int64, _ *gen.Rand) {
+		const g = 16
+		var wg sync.WaitGroup
+		var panics int32
+		for k := 0; k < g; k++ {
+			wg.Add(1)
+			rk := gen.Derive(c.Seed, uint64(i), uint64(k), 0xC16C)
+			go func() {
+				defer wg.Done()
+				defer func() {
+					if recover() != nil {
+						atomic.AddInt32(&panics, 1)
+					}
+				}()
+				for n := 0; n < 400; n++ {
+					s := c16Random(rk, 1)
+					if n%3 == 0 {
+						s = fmt.Sprintf("turn:host%d.example.org:%d?transport=tcp", n, 1000+n) // valid and distinct: exercises any cache
+					}
+					_, _ = stun.ParseURI(s)
+				}
+			}()
+		}
+		wg.Wait()
+		c.Eval(g * 400)
+		c.Count("concurrent_parses", g*400)
+		if panics > 0 {
+			c.Violate("panic", "panic:concurrent", map[string]interface{}{"goroutines_that_panicked": panics})
+		}
+		c.Distinct(uint64(i) | 3<<50)
+	})
+	if c.Config == "race" {
+		return
+	}
 	// random, grammar-mutated, control characters, invalid UTF-8, very long inputs
 	c.Section("random", c.N(60000, 2000000), func(i int64, r *gen.Rand) {
 		s := c16Random(r, i)
